@@ -53,6 +53,7 @@ def run(ctx, rep, tier):
     rep.rule("TS", "final position selector is the exact complement of the descent condition on the slope", 1)
     rep.rule("BP", "bounds are pushed at positions >= begin_", 2)
     rep.rule("DS", "derived state of RowLegalizer is reset by every writer of its inputs", 1)
+    rep.rule("CR", "clear() gives every changing scalar member the value the constructor gives it", 1)
     rep.rule("QP", "getCost queries (update=false), push commits (update=true), clear resets everything", 3)
     f = prog.func1(CQ + "RowLegalizer::getDisplacement")
     g = cfg_of(f)
@@ -146,7 +147,13 @@ def run(ctx, rep, tier):
     for q, lit in (("RowLegalizer::getCost", False), ("RowLegalizer::push", True)):
         h = prog.func1(CQ + q)
         cs = calls_to(h, CQ + "RowLegalizer::getDisplacement")
-        if len(cs) == 1 and canon(callee_info(cs[0])["args"][2]) == ("lit", lit):
+        rets = [y for y in walk(h.body) if y.get("kind") == "ReturnStmt" and children(y)]
+        other = [y for y in rets if not any(z is cs[0] for z in walk(y))] if len(cs) == 1 else []
+        if other:
+            rep.violation("QP", other[0], h, "%s can answer without asking getDisplacement" % q,
+                          "prediction and commit must be the same evaluation: a separate shortcut in one of them makes the predicted cost differ "
+                          "from the cost reported by the push (returns %s)" % pretty(canon(children(other[0])[0]))[:50], key="%s|separate return path" % h.short)
+        elif len(cs) == 1 and canon(callee_info(cs[0])["args"][2]) == ("lit", lit):
             s2 = eff.summary(h)
             direct = [w for w in list(s2["writes"]) if w.startswith(CQ + "RowLegalizer::") and not all("non-const method" in u.why for _x, u in s2["writes"][w])]
             if direct:
@@ -164,6 +171,7 @@ def run(ctx, rep, tier):
         rep.holds("QP", c.decl, c, "clear() resets %s" % ", ".join(sorted(allst)))
     else:
         rep.violation("QP", c.decl, c, "clear() leaves %s untouched" % sorted(allst - w), "", key="RowLegalizer::clear|incomplete reset")
+    check_clear_restores(ctx, rep, c)
 
     check_tie_selector(ctx, rep, f)
     check_bound_positions(ctx, rep, f)
@@ -175,6 +183,71 @@ def run(ctx, rep, tier):
         rep.unknown("DS", None, None, "const members of RowLegalizer", "none found (shape changed)")
     elif len([i for i in rep.instances if i["rule"] == "DS"]) == n0:
         rep.holds("DS", "-", None, "%d const member functions of RowLegalizer keep no derived state" % nds)
+
+
+def check_clear_restores(ctx, rep, clr):
+    """CR. Every scalar member of RowLegalizer that changes during use (written by a method other than the constructor and clear())
+    must be given back by clear() the value the constructor gives it: the constructor's initialiser, with the constructor's
+    parameters replaced by the members they initialise, equals the expression clear() assigns."""
+    prog = ctx.prog
+    cls = CQ + "RowLegalizer"
+    rec = prog.records.get(cls)
+    ctors = [f for f in prog.funcs.values() if f.cls == cls and f.kind == "CXXConstructorDecl"]
+    if not rec or not ctors:
+        rep.unknown("CR", clr.decl, clr, "constructor", "not found")
+        return
+    ctor = ctors[0]
+    init, par2mem = {}, {}
+    for ci_ in ctor.ctor_inits:
+        an = ci_.get("anyInit") or {}
+        if an.get("name") and children(ci_):
+            e = children(ci_)[-1]
+            if e.get("kind") == "CXXDefaultInitExpr":
+                # in-class default member initialiser: the value is written on the field's declaration
+                fdecl = rec["fields"].get(an.get("name")) or {}
+                e = (children(fdecl) or [None])[-1]
+                if e is None:
+                    continue
+            v = canon(e)
+            init[an.get("name")] = v
+            if v[0] == "var":
+                par2mem[v[1]] = ("field", cls + "::" + an.get("name"), ("this",))
+
+    def sub(c):
+        if isinstance(c, tuple):
+            if c and c[0] == "var" and c[1] in par2mem:
+                return par2mem[c[1]]
+            return tuple(sub(x) if isinstance(x, tuple) else x for x in c)
+        return c
+
+    n = 0
+    for name, fd in rec["fields"].items():
+        t = qt(fd).replace("const ", "").strip()
+        if t not in ("int", "long", "long long", "bool", "float", "double", "unsigned int", "size_t"):
+            continue
+        fq = cls + "::" + name
+        writers = {f.short for f, _x, _u in __import__("cqverif.rules.common", fromlist=["field_writes"]).field_writes(ctx, fq)
+                   if f.kind != "CXXConstructorDecl" and f.key != clr.key}
+        if not writers:
+            continue          # constant after construction
+        n += 1
+        want = sub(init.get(name)) if name in init else None
+        got = None
+        for x in walk(clr.body):
+            if x.get("kind") == "BinaryOperator" and x.get("opcode") == "=":
+                l, r = canon(children(x)[0]), canon(children(x)[1])
+                if l == ("field", fq, ("this",)):
+                    got = r
+        what = "member %s changes during use (%s)" % (name, ", ".join(sorted(writers))[:60])
+        if got is None:
+            rep.violation("CR", clr.decl, clr, what, "clear() does not reset it", key="RowLegalizer::clear|%s not reset" % name)
+        elif want is not None and got != want:
+            rep.violation("CR", clr.decl, clr, what, "clear() sets it to %s but the constructor starts it at %s: a legalizer that is cleared and reused does not "
+                          "behave like a fresh one" % (pretty(got)[:40], pretty(want)[:40]), key="RowLegalizer::clear|%s reset to another value" % name)
+        else:
+            rep.holds("CR", clr.decl, clr, what, "clear() restores the constructor's value %s" % (pretty(want)[:40] if want else "?"))
+    if n == 0:
+        rep.holds("CR", clr.decl, clr, "RowLegalizer has no scalar member that changes during use", "the containers are covered by QP")
 
 
 def _atoms_rel(c):
